@@ -1900,14 +1900,13 @@ impl StorageEngine {
                 Value::Hash(hash) => {
                     let new_val = match hash.get(&field) {
                         Some(current_bytes) => {
-                            let current_str = String::from_utf8_lossy(current_bytes);
-                            match current_str.parse::<i64>() {
+                            match crate::storage::value::parse_strict_i64(current_bytes) {
                                 // (an unchecked sum panics in a build with overflow checks and wraps without)
-                                Ok(current) => match current.checked_add(increment) {
+                                Some(current) => match current.checked_add(increment) {
                                     Some(sum) => sum,
                                     None => return Err(FerrousError::Command(CommandError::IntegerOverflow)),
                                 },
-                                Err(_) => return Err(FerrousError::Command(CommandError::NotInteger)),
+                                None => return Err(FerrousError::Command(CommandError::NotInteger)),
                             }
                         }
                         None => increment,
